@@ -24,7 +24,7 @@ def probe(cfg, timeout=200):
 
 def run(ctx):
     ctx.rule = ("stress: fresh interpreters, 2-8 threads released by a barrier, each running a seeded random sequence from the C15 alphabet, switch interval 1e-6, cold and warm start; "
-                "replay: for every ordered (victim, intruder) pair of entry points the intruder is scheduled between the victim's grammar match and its scrub (parser proxies); "
+                "replay: for every ordered (victim, intruder) pair of entry points the intruder is scheduled between the victim's grammar match and its scrub (parser proxies), and between its scrub and its NULL substitution (scrub proxy); "
                 "every result is compared with the single-call fresh-process result; distinct non-trivial = distinct (thread schedule seed, call) pairs")
     A = c15.shape_or_violation(ctx)
     ok = False
@@ -85,12 +85,13 @@ def run(ctx):
     for v in vic:
         for i in intr:
             reps.append(dict(mode="replay", victim=vic[v], intruder=intr[i], wait=0.2))
+            reps.append(dict(mode="replay", point="scrub", victim=vic[v], intruder=intr[i], wait=0.2))
     with ThreadPoolExecutor(NCPU) as ex:
         solo_v = {v: fresh([vic[v]]) for v in vic}
         solo_i = {i: fresh([intr[i]]) for i in intr}
         outs = list(ex.map(probe, reps))
     for cfg, o in zip(reps, outs):
-        ctx.count(1, ("replay", cfg["victim"][0], cfg["intruder"][0]))
+        ctx.count(1, ("replay", cfg.get("point", "match"), cfg["victim"][0], cfg["intruder"][0]))
         if isinstance(o, str) or any(o["alive"]):
             ctx.violation("schedule", dict(victim=cfg["victim"], intruder=cfg["intruder"], observed=str(o)[:300], requires="all calls complete"))
             found += 1
@@ -98,7 +99,7 @@ def run(ctx):
         rv, ri = o["res"].get("victim"), o["res"].get("intruder")
         ev, ei = solo_v[cfg["victim"][0]][0], solo_i[cfg["intruder"][0]][0]
         if rv != ev or ri != ei:
-            ctx.violation("schedule", dict(schedule="victim: match | intruder: whole call | victim: scrub, substitute", victim=cfg["victim"], intruder=cfg["intruder"],
+            ctx.violation("schedule", dict(schedule="victim: match | intruder: whole call | victim: scrub, substitute" if cfg.get("point") != "scrub" else "victim: match, scrub | intruder: whole call | victim: substitute", victim=cfg["victim"], intruder=cfg["intruder"],
                                            victim_returned=short(rv, 500), victim_alone=short(ev, 500), intruder_returned=short(ri, 500), intruder_alone=short(ei, 500),
                                            requires="every call returns what it returns when run alone", replay_cfg=cfg))
             found += 1
